@@ -1,7 +1,7 @@
 (* One entry point for the OCaml runner: op name and byte-string arguments
    in, (result bytes, tag text) out.  All structure is decoded here, in Coq. *)
 From Coq Require Import NArith ZArith List Bool String.
-From GJ Require Import Base.Bytes Base.Show Model.Int Model.StrEnc Model.StrDec Model.Compact Model.Iface Model.Path Model.KeyBitmap Spec.Json Gen.Resets Model.Mem Base.TypeAddrBase Gen.TypeAddr Model.TypeCache Model.Stream Model.StreamInst Model.Enc Model.EncIndent Gen.Query Model.Query Model.Decode Model.EncTyped Model.Skip Model.PathEval Model.PathTags Gen.SliceShape Model.SlicePool Model.FieldRes Model.Cycle Gen.Tables Model.Layout.
+From GJ Require Import Base.Bytes Base.Show Model.Int Model.StrEnc Model.StrDec Model.Compact Model.Iface Model.Path Model.KeyBitmap Spec.Json Gen.Resets Model.Mem Base.TypeAddrBase Gen.TypeAddr Model.TypeCache Model.Stream Model.StreamInst Model.Enc Model.EncIndent Gen.Query Model.Query Model.Decode Model.EncTyped Model.Skip Model.PathEval Model.PathTags Gen.SliceShape Model.SlicePool Model.FieldRes Model.Cycle Gen.Tables Model.Layout Model.EncColor.
 Import ListNotations.
 Open Scope N_scope.
 Open Scope string_scope.
@@ -173,6 +173,18 @@ Definition dispatch (op : list N) (args : list (list N)) : list N * list N :=
          | Some r => str "out " ++ show_N (fst r)
          end
      | _, _ => str "unparsed"
+     end, [])
+  else if list_eqb op (str "c13.color") then
+    (* arg0: a value (wire of Model/Enc.v); arg1..10: header and footer for numbers, strings, booleans, null, keys *)
+    (match parse_jv (S (List.length (arg 0 args))) (arg 0 args) with
+     | Some (v, []) =>
+         let sch : scheme := fun k =>
+           match k with
+           | CNum => (arg 1 args, arg 2 args) | CStr => (arg 3 args, arg 4 args) | CBool => (arg 5 args, arg 6 args)
+           | CNull => (arg 7 args, arg 8 args) | CKey => (arg 9 args, arg 10 args)
+           end in
+         marshal_color sch v
+     | _ => str "unparsed"
      end, [])
   else if list_eqb op (str "c15.bitmap") then
     (* arg0 = sorted lower-cased names separated by LF, arg1 = decoded key *)
